@@ -49,7 +49,7 @@ ASSUMPTIONS = [
 
 
 def cases(rng, tier):
-    return S.gen_cases(rng, tier, 220 if tier == "quick" else 4000)
+    return S.gen_cases(rng, tier, 1500 if tier == "quick" else 15000)
 
 
 def search_cases(rng, tier):
